@@ -4,6 +4,7 @@ From ApiFu Require Import Cplx.Tables Cplx.ParserDepthModel Cplx.MergeCountModel
      Cplx.ComplexityDecode Cplx.ComplexitySpec Cplx.ParserDepthProofs Cplx.CostWalkProofs Cplx.MergeFamily
      Cplx.FragmentWalkCount Cplx.SpreadLists Cplx.MergeLowerBound Cplx.CostWalkPaths.
 From ApiFu Require Base.Sexp Lex.LexModel Cplx.TokenClass Cplx.ParseFromBytes.
+From ApiFu Require Vld.Ast Vld.Inspect Cplx.InspectSteps Cplx.ParserStackDepth Cplx.ScanSteps.
 Import ListNotations.
 Open Scope Z_scope.
 
@@ -151,3 +152,28 @@ Example from_bytes_instance :
   | _ => False
   end.
 Proof. vm_compute. split; reflexivity. Qed.
+
+(** ** round 3 *)
+
+(** runes: "{a é}" with a two-byte rune, and two invalid bytes (each a rune of its own) *)
+Example runes_instances :
+  TokenClass.runes [123; 97; 32; 195; 169; 125]%N = 5%nat /\ TokenClass.runes [255; 254]%N = 2%nat.
+Proof. vm_compute. split; reflexivity. Qed.
+
+(** the high-water mark of p.recursion at the boundary: 1000 when accepted, 1001 in the depth error *)
+Example stack_instances :
+  map (fun n => match parse go_cfg (deep n) with Ok s => maxrec s | Err _ s => maxrec s | OutOfFuel => -1 end)
+      [2; 248; 249; 1500]%nat = [16; 1000; 1001; 1001].
+Proof. vm_compute. reflexivity. Qed.
+
+(** counting wrapper around a visitor that descends only below the first node it sees: 3 of the 4
+    nodes entered, one nil call; a visitor that never prunes sees all 4 and is called with nil 4 times *)
+Example inspect_count_instance :
+  let nm := fun k => Inspect.T (Inspect.NName [k] (1, 1)%N) [] in
+  let t := Inspect.T (Inspect.NName [0%N] (1, 1)%N) [Inspect.T (Inspect.NName [1%N] (1, 1)%N) [nm 2%N]; nm 3%N] in
+  snd (Inspect.inspect (InspectSteps.enter_c nat (fun d _ => (S d, Nat.ltb d 1))) (InspectSteps.leave_c nat (fun d => d)) t (0%nat, (0, 0)%nat))
+  = (3, 1)%nat
+  /\ snd (Inspect.inspect (InspectSteps.enter_c nat (fun d _ => (d, true))) (InspectSteps.leave_c nat (fun d => d)) t (0%nat, (0, 0)%nat))
+     = (4, 4)%nat
+  /\ InspectSteps.nodes t = 4%nat.
+Proof. vm_compute. repeat split; reflexivity. Qed.
